@@ -25,7 +25,7 @@ CHECKS.update({
                   "partition in dependency order, pasted empty, every formula runs once, exactly the targets remain (as inputs, with the directly evaluated values), cache restored by generate_actions. "
                   "Tied to /repo on every run by exact comparison of action lists, execution logs, per-action cache states and values on generated models.",
              note="trusted: Coq kernel incl. vm_compute, harness, Plan/Tie.v; modelled not verified: networkx topological_sort (its output is an input checked by check_order, proved sound), "
-                  "trace graph abstracted to calculated nodes reachable through calculated nodes; precondition D25 (no precedent pre-computed) explicit in the statements, recorded as known finding",
+                  "trace graph abstracted to calculated nodes reachable through calculated nodes; precondition D25 (no precedent pre-computed) explicit in the statements, recorded as known finding; 35% of the plans hold None values (allow_none), observed as 0",
              technique="Coq proof (induction over the planner loop and over fuel) + vm_compute correspondence + property oracle", design="6/C16"),
 })
 CHECKS.update({
@@ -60,7 +60,7 @@ CHECKS.update({
                   "and exactly the specification's executing chain (Chain.spec_chain: a function of current definitions and inputs only; elements outermost first with the line of the next call "
                   "or of the error), and nothing stays in the rolled-back list; a successful evaluation leaves nothing behind. Excluded from the theorem: the recursion-depth error. The model's "
                   "full tracebacks are compared with mx.get_traceback()/get_error() on every run, and with the reference-interpreter oracle.",
-             note=EXEC_NOTE + "; traceback.TracebackException frame/line semantics modelled; KDeep excluded", technique="Coq proof (chain-instrumented specification, simulation sim3_all by induction on fuel) + vm_compute correspondence of full tracebacks + executing-chain oracle", design="6/C17"),
+             note=EXEC_NOTE + "; traceback.TracebackException frame/line semantics modelled; KDeep excluded; the statement try/finally (a formula evaluating cells while a failure passes) runs in 40% of the worlds - see DESIGN section 5 for whether it is a constructor of Exec/Model.v or a (P)-only statement in this revision", technique="Coq proof (chain-instrumented specification, simulation sim3_all by induction on fuel) + vm_compute correspondence of full tracebacks + executing-chain oracle", design="6/C17"),
  "C03": dict(text="Coq proof that for every sequence of space/base/member edits the model's members equal the from-scratch re-derivation along the C3 order (plus name uniqueness, the C3 laws "
                   "and evaluation in the sub space), model tied to /repo after every operation by vm_compute correspondence on random and exhaustive small ordered-base DAGs. The pinned tree "
                   "deviated on D1 D2 D2b D3 D33 D34 (D23): all repaired in /repo, their former triggers are generated, their witnesses must pass.",
@@ -83,7 +83,7 @@ CHECKS.update({
                   "memo-table soundness; tie on every run: real FormulaTransformer output = transform, the Gallina evaluator on the dumped implementation state = observed values in both worlds, "
                   "exported values = model values four ways (modelx-free subprocess).",
              note="trusted: Coq kernel + vm_compute; Python harness (generator, printer/parser, dump); modelled not verified: CPython scoping/evaluation on the grammar, libcst, symtable, pickle; outside: "
-                  "syntax beyond the grammar, default parameter values, pandas/IOSpec refs, package module globals; six recorded defects avoided and replayed",
+                  "syntax beyond the grammar, default parameter values, pandas/IOSpec refs, package module globals; no recorded defect is avoided any more (builtin_child self_local comp_scope comp_var ifexp_order val_param nonfinite_float_ref repaired in /repo, their shapes generated; formulas binding `self` are refused by the exporter)",
              technique="Coq simulation proof (fuel + structural induction) + translation validation of FormulaTransformer + differential testing in a modelx-free subprocess", design="6/C15"),
  "C18": dict(text="Coq proof over all operation sequences (new_pandas/new_module, assignment, rebinding, deletion, update, add/remove_bases, close, sheet/path setters, del_spec, deleting and re-creating top-level spaces) that the IO manager's "
                   "specs are exactly those whose value is bound by a reference of an open model; rejected creations change nothing; no two specs share a location; _check_sanity assertions are "
@@ -95,7 +95,7 @@ CHECKS.update({
                   "extraction, for all well-formed structured texts; tied to /repo on every run by evaluating the model on the real texts with asttokens positions, plus a behavioural oracle "
                   "(values, parameters, AST, comments).",
              note="partial: CPython tokenizer/compiler, ast+asttokens positions, textwrap.dedent, inspect.getsource modelled not verified (positions are inputs cross-checked per case); behavioural half "
-                  "rests on the (P) oracle; insert_indents=True, multi-line lambdas, _reload, NULL_FORMULA outside theorems; D31 D33 D34 D35 recorded findings avoided (D10 D30 D32 D36 repaired in /repo and generated)",
+                  "rests on the (P) oracle; insert_indents=True, multi-line lambdas, _reload, NULL_FORMULA outside theorems; D31 D33 D34 D35 recorded findings avoided (D10 D30 D32 D36 repaired in /repo and generated); half of the renames have an overriding and a plainly derived bystander sub space",
              technique="Coq Gallina model + inductive proofs + vm_compute correspondence on generated structured texts + differential oracle", design="6/C20"),
 })
 CHECKS.update({
@@ -130,7 +130,7 @@ CHECKS.update({
                   "nesting depths (binding = rebind mode definer target deriver), absolute/outside targets unchanged, chains compose, the incremental state equals from-scratch derivation for all "
                   "histories; tied to /repo on every run by a grid plus random histories evaluated inside Coq and by an identity-based property oracle on the live objects (incl. write/read).",
              note="trusted: Coq kernel + vm_compute, harness (relref driver, c10model trigger mirror); modelled not verified: the C3 order is an observed input (C03), existence of corresponding objects, "
-                  "ItemSpace freshness (C07), serializer internals (round trip observed only); histories avoid the triggers of 6 recorded defects (D15 D19 D33 dyn_direct_bases change_ref_is_relative repaired in /repo and generated)",
+                  "ItemSpace freshness (C07), serializer internals (round trip observed only); histories avoid the trigger of 1 recorded defect (dangling_target, late-creation half) and the non-atomic add_bases failure (DESIGN limits); D15 D19 D33 dyn_direct_bases change_ref_is_relative stale_mode relative_change_unchecked dangling_target_overwrite dyn_derived_nonrelative suffix_root stale_outer_root repaired in /repo and generated",
              technique="Coq refinement to a path-algebra spec (induction over names and edit lists) + vm_compute correspondence + identity/differential oracle", design="6/C10"),
 })
 CHECKS.update({
@@ -143,7 +143,7 @@ CHECKS.update({
  "C12": dict(text="Machine-checked proof that in every reachable state cells, own references (defined or derived) and child spaces of a space are pairwise disjoint, that no operation can break this in any "
                   "sub space, and that dir() and name lookup of spaces and ItemSpaces equal the chained containers with own references before model-level ones and parameters before base references; "
                   "tied to /repo by the same histories with dir(), containers, getattr kinds and the library's self-checks observed after every operation.",
-             note="trusted: as C11; ideal model: /repo deviates on D13 N2 (triggers avoided, witnesses replayed; D23 N1 N3 N5 N6 N7 N9 repaired in /repo and generated); modelled not verified: derived members are a view along the C3 order, ItemSpace observed at argument 0 "
+             note="trusted: as C11; ideal model: no recorded deviation is left (D13 D23 N1 N2 N3 N5 N6 N7 N9 new_space_refs model_ref_to_object_sanity repaired in /repo and generated); a (P)-only *wide* class (references bound to spaces/cells, new_space(refs=...)) and the directed clash-deep-below histories run beside the tied histories; modelled not verified: derived members are a view along the C3 order, ItemSpace observed at argument 0 "
                   "only; the lazy-container refresh is exercised by the tie, not modelled",
              technique="Coq name-disjointness invariant by induction with per-operation frame lemmas + vm_compute correspondence + self-check oracle", design="6/C12"),
 })
